@@ -1,7 +1,7 @@
 (* C13Corr.v — comparison of the C13 models (NumText.v, JsonText.v, DateText.v) with observations of the real
    code written by harness/cmd/c13.  No proofs. *)
 From Coq Require Import ZArith NArith List Bool.
-From Verif Require Import lib.Dec model.NumText.
+From Verif Require Import lib.Dec model.NumText model.Civil model.DateText.
 Import ListNotations.
 
 Definition dec_same (a b : dec) : bool := ((mant a =? mant b) && (dexp a =? dexp b))%Z.
@@ -36,3 +36,63 @@ Fixpoint mismatches_from {A} (chk : A -> bool) (i : N) (ks : list A) : list N :=
   end.
 
 Definition nmismatches (ks : list ncase) : list N := mismatches_from ncheck 0%N ks.
+
+(* ------------------------------------------------------------------------------------------------ *)
+(* datetimes, dates, times *)
+
+(* a zone as sampled from tzdata: periods (start, end, offset), unix seconds, end exclusive *)
+Definition ztable := list (Z * Z * Z).
+
+Fixpoint offset_of (tbl : ztable) (x : Z) : Z :=
+  match tbl with
+  | [] => 777777%Z      (* outside the sampled periods: a value no zone has, so that a consultation shows up *)
+  | (s, e, o) :: rest => if ((s <=? x) && (x <? e))%Z then o else offset_of rest x
+  end.
+
+Definition opt_Z_same (a b : option Z) : bool :=
+  match a, b with None, None => true | Some x, Some y => (x =? y)%Z | _, _ => false end.
+
+Definition opt_date_same (a : option date) (b : option (Z * Z * Z)) : bool :=
+  match a, b with
+  | None, None => true
+  | Some (y, m, d), Some (y', m', d') => ((y =? y') && (m =? m') && (d =? d'))%Z
+  | _, _ => false
+  end.
+
+Definition opt_tod_same (a : option tod) (b : option (Z * Z * Z * Z)) : bool :=
+  match a, b with
+  | None, None => true
+  | Some t, Some (h, mi, s, ns) => ((t_hour t =? h) && (t_min t =? mi) && (t_sec t =? s) && (t_ns t =? ns))%Z
+  | _, _ => false
+  end.
+
+Inductive dcase :=
+  (* instant t (ns) held in a value whose zone is vz; environment e with zone ez: Render gave iso_txt, ToXDateTime of
+     it gave iso_back; Format(env) gave fmt_txt, ToXDateTime of it gave fmt_back *)
+| KDt (vz ez : ztable) (e : env) (t : Z) (iso_txt : text) (iso_back : option Z) (fmt_txt : text) (fmt_back : option Z)
+  (* ToXDateTime on an arbitrary text *)
+| KDtParse (ez : ztable) (e : env) (s : text) (r : option Z)
+| KDate (e : env) (y m d : Z) (rtxt ftxt : text) (rback fback : option (Z * Z * Z))
+| KDateParse (e : env) (s : text) (r : option (Z * Z * Z))
+| KTime (e : env) (h mi s ns : Z) (rtxt ftxt : text) (rback fback : option (Z * Z * Z * Z))
+| KTimeParse (s : text) (r : option (Z * Z * Z * Z)).
+
+Definition dcheck (k : dcase) : bool :=
+  match k with
+  | KDt vz ez e t iso_txt iso_back fmt_txt fmt_back =>
+      text_eqb (iso (offset_of vz) t) iso_txt
+      && opt_Z_same (datetime_from_string (offset_of ez) e iso_txt) iso_back
+      && text_eqb (format_datetime (offset_of ez) e t) fmt_txt
+      && opt_Z_same (datetime_from_string (offset_of ez) e fmt_txt) fmt_back
+  | KDtParse ez e s r => opt_Z_same (datetime_from_string (offset_of ez) e s) r
+  | KDate e y m d rtxt ftxt rback fback =>
+      text_eqb (render_date (y, m, d)) rtxt && text_eqb (format_date e (y, m, d)) ftxt
+      && opt_date_same (date_from_string e rtxt) rback && opt_date_same (date_from_string e ftxt) fback
+  | KDateParse e s r => opt_date_same (date_from_string e s) r
+  | KTime e h mi s ns rtxt ftxt rback fback =>
+      text_eqb (render_time (Tod h mi s ns)) rtxt && text_eqb (format_time e (Tod h mi s ns)) ftxt
+      && opt_tod_same (time_from_string rtxt) rback && opt_tod_same (time_from_string ftxt) fback
+  | KTimeParse s r => opt_tod_same (time_from_string s) r
+  end.
+
+Definition dmismatches (ks : list dcase) : list N := mismatches_from dcheck 0%N ks.
